@@ -267,12 +267,13 @@ def applyNTombs (d : Defects) (rights : List Bool) (dst : Replica) (ts : List NT
     | some n => can rights t.author (n.author = t.author)
     | none => can rights t.author true
   valid.foldl (fun r t =>
+    let hit : Node → Bool := fun n => n.id = t.id && (!d.syncDeletionRoomScoped || n.room = t.room)
     let localDay : List Key :=
       if d.syncDeletionLocalDayUnmarked then []
-      else (r.nodes.filter fun n => n.room = t.room && n.id = t.id).map fun n => kNode n.room n.ent n.mdate
-    { r with nodes := r.nodes.filter (fun n => !(n.room = t.room && n.id = t.id)),
+      else (r.nodes.filter hit).map fun n => kNode n.room n.ent n.mdate
+    { r with nodes := r.nodes.filter (fun n => !hit n),
              edges := if d.syncDeletionKeepsEdges then r.edges
-                      else if r.nodes.any (fun n => n.room = t.room && n.id = t.id)
+                      else if r.nodes.any hit
                         then r.edges.filter (fun e => !(e.src = t.id || e.dest = t.id)) else r.edges,
              ntombs := putNTomb t r.ntombs,
              log := markAll ([kNode t.room t.ent t.ddate, kNode t.room t.ent t.mdate] ++ localDay) r.log }) dst
@@ -312,7 +313,7 @@ def syncDay (d : Defects) (rights : List Bool) (dst src : Replica) (room ent day
   let dst2 := if nts.isEmpty then dst1 else applyNTombs d rights dst1 nts
   let announced := src.nodes.filter fun n => n.room = room && n.ent = ent && dayOf n.mdate = day
   let req := announced.filterMap fun n => (wanted d dst2 n).map fun o => (n, o)
-  if req.isEmpty then { dst := dst2, changed := !ets.isEmpty || !nts.isEmpty, fetched := 0 }
+  if req.isEmpty && d.edgesOnlyForFetchedRows then { dst := dst2, changed := !ets.isEmpty || !nts.isEmpty, fetched := 0 }
   else
     let dst3 := req.foldl (fun r (x : Node × Option Node) => ingestNode d rights r x.1 x.2) dst2
     let edgeReq : List (Nat × Nat) :=
@@ -321,7 +322,7 @@ def syncDay (d : Defects) (rights : List Bool) (dst src : Replica) (room ent day
       else announced.map fun n => (n.id, 0)
     let es := edgeReq.flatMap fun (x : Nat × Nat) => src.edges.filter fun e => e.src = x.1 && e.cdate ≥ x.2
     let dst4 := es.foldl (fun r e => { r with edges := putEdge e r.edges }) dst3
-    { dst := dst4, changed := true, fetched := req.length }
+    { dst := dst4, changed := !req.isEmpty || !ets.isEmpty || !nts.isEmpty || !es.isEmpty, fetched := req.length }
 
 structure PullResult where
   dst : Replica
@@ -506,5 +507,33 @@ def World.settle (d : Defects) (room : Nat) : Nat → World → Nat → Nat → 
     let r := w.round d room
     if r.1.peers.map Replica.canon = w.peers.map Replica.canon then (r.1, n + 1, true, r.2)
     else World.settle d room fuel r.1 (n + 1) r.2
+
+/-! ### op sequences (the op file of the harness, without its refusals) -/
+
+inductive Op where
+  | clock (t : Nat)
+  | write (p : Nat) (op : WOp)
+  | compute (p : Nat)
+  | pull (dst src room : Nat)
+  | begin (p : Nat)
+  | commit (p : Nat)
+  | settle (room max : Nat)
+deriving Repr, DecidableEq
+
+def World.exec (d : Defects) (w : World) : Op → World
+  | .clock t => { w with now := t }
+  | .write p op => (w.write d p op).1
+  | .compute p => (w.compute d p).1
+  | .pull dst src room => (w.pull d dst src room).1
+  | .begin p =>
+    let w1 := w.commit.1
+    { w1 with batch := some { peer := p, snap := w1.peer p, marks := [], pend := [] } }
+  | .commit p =>
+    match w.batch with
+    | some b => if b.peer = p then w.commit.1 else w
+    | none => w
+  | .settle room max => (World.settle d room max w.commit.1 0 0).1
+
+def World.run (d : Defects) (w : World) (ops : List Op) : World := ops.foldl (World.exec d) w
 
 end Discret.Sync
